@@ -402,10 +402,110 @@ def prefix_names(rng, variant):
     return b.prog('prefix_names')
 
 
+def starred_targets(rng, variant):
+    """starred unpacking targets — assignment (first / middle / last position, nested tuple, list target), `for` target,
+    `with … as (k, *vs)` — each followed by a read, a conditional rebinding, a loop that updates it and a read after the loop"""
+    b = _B(rng)
+    b.features.add('starred_target')
+    b.e(0, 'class cmt(object):'); b.e(1, 'def __enter__(self):'); b.e(2, 'return (7, 8, 9)'); b.e(1, 'def __exit__(self, *e):'); b.e(2, 'return False')
+    _head(b)
+    b.e(1, 'l0 = [a, b, c, a + b]')
+    form = variant % 9
+    pre = (variant // 9) % 2          # the starred name already holds a value (it must be killed / redefined)
+    if pre:
+        b.e(1, 'rest = [tr(%d, 0)]' % b.slot())
+    ind = 1
+    if form == 0:
+        b.e(1, 'head, *rest = l0')
+    elif form == 1:
+        b.e(1, '*rest, head = l0')
+    elif form == 2:
+        b.e(1, 'head, *rest, last = l0')
+    elif form == 3:
+        b.e(1, '(head, *rest), last = (l0, 1)')
+    elif form == 4:
+        b.e(1, '[head, *rest] = l0')
+    elif form == 5:
+        b.e(1, 'head = 0'); b.e(1, 'rest = []' if not pre else 'head = 1')
+        b.e(1, 'for head, *rest in [[q, q + 1, q + 2] for q in n()]:'); b.e(2, 'y = tr(%d, head, rest)' % b.slot())
+    elif form == 6:
+        b.e(1, 'with cmt() as (head, *rest):'); b.e(2, 'y = tr(%d, head)' % b.slot())
+    elif form == 7:
+        b.e(1, 'if d():'); b.e(2, 'head, *rest = l0'); b.e(1, 'else:'); b.e(2, 'head, rest = 0, [1]')
+    else:
+        b.e(1, 'head, rest = 0, [5]'); b.e(1, 'while d():'); b.e(2, 'head, *rest = rest + [head]')
+    follow = (variant // 18) % 4
+    if follow == 0:
+        b.e(1, 'z = tr(%d, rest)' % b.slot())
+    elif follow == 1:
+        b.e(1, 'if tr(%d, head):' % b.slot()); b.e(2, 'rest = rest[1:]')
+    elif follow == 2:
+        b.e(1, 'for i in n():'); b.e(2, 'rest = rest + [i]')
+    else:
+        b.e(1, 'while d():'); b.e(2, 'z = tr(%d, rest[:1])' % b.slot()); b.e(2, 'if d():'); b.e(3, 'rest = [z]')
+    b.filler(1, ['y', 'z'], rng.randrange(0, 2))
+    b.e(1, 'return tr(0, rest, head)')
+    p = b.prog('starred_target')
+    p.decisions = [[1] * 8, [0] * 8, [2, 1, 0, 1, 0, 1, 1, 0], [1, 0, 1, 1, 0, 0, 1, 0], [2, 2, 1, 1, 0, 0, 0, 0], [0, 1, 1, 0, 1, 0, 0, 0]]
+    return p
+
+
+def try_else_finally(rng, variant):
+    """try / except / else / finally with a jump in the `else` clause (return, break, continue, raise caught by an outer try),
+    a variable assigned just before the jump and read only in the `finally` body / only after the statement; at function level,
+    in a `for`, in a `while`; the jump guarded by a decision or not"""
+    b = _B(rng)
+    b.features.update(['try', 'finally', 'try_else'])
+    _head(b)
+    loop = variant % 3                 # 0 function level, 1 for, 2 while
+    jump = (variant // 3) % 4          # 0 return, 1 break, 2 continue, 3 raise (outer try)
+    where = (variant // 12) % 2        # 0 read only in the finally body, 1 read only after the statement
+    guarded = (variant // 24) % 2
+    if loop == 0 and jump in (1, 2):
+        jump = 0
+    ind = 1
+    if jump == 3:
+        b.e(ind, 'try:'); ind += 1
+    if loop == 1:
+        b.e(ind, 'for i in n():'); ind += 1
+    elif loop == 2:
+        b.e(ind, 'while d():'); ind += 1
+    b.e(ind, 'try:')
+    b.e(ind + 1, 'y = tr(%d, y)' % b.slot())
+    b.e(ind + 1, 'if d():'); b.e(ind + 2, 'raise E1(tr(%d))' % b.slot())
+    b.e(ind, 'except E1:'); b.e(ind + 1, 'w = tr(%d, w)' % b.slot())
+    b.e(ind, 'else:')
+    b.e(ind + 1, 'x = tr(%d, y)' % b.slot())                    # assigned just before the jump
+    js = {0: 'return tr(%d, y)' % b.slot(), 1: 'break', 2: 'continue', 3: 'raise E2(tr(%d))' % b.slot()}[jump]
+    if guarded:
+        b.e(ind + 1, 'if d():'); b.e(ind + 2, js); b.e(ind + 1, 'y = tr(%d, y)' % b.slot())
+    else:
+        b.e(ind + 1, js)
+    b.e(ind, 'finally:')
+    if where == 0:
+        b.e(ind + 1, 'z = tr(%d, x)' % b.slot())                # the only read of x
+    else:
+        b.e(ind + 1, 'z = tr(%d, z)' % b.slot())
+    if where == 1:
+        b.e(ind, 'w = tr(%d, x)' % b.slot())                    # read only after the statement
+    if loop:
+        ind -= 1
+        if where == 1:
+            b.e(ind, 'w = tr(%d, x, w)' % b.slot())
+    if jump == 3:
+        ind -= 1
+        b.e(ind, 'except E2:'); b.e(ind + 1, 'y = tr(%d, z)' % b.slot())
+    b.e(1, 'return tr(0, z, w, y)')
+    p = b.prog('try_else_finally')
+    p.decisions = [[1, 0, 1, 1, 0, 1, 0, 0], [0, 1, 0, 1, 0, 0, 0, 0], [2, 0, 1, 0, 1, 0, 0, 0], [1, 0, 0, 1, 0, 1, 0, 1], [1, 1, 1, 0, 1, 0, 0, 0],
+                   [2, 0, 0, 0, 1, 1, 0, 0]]
+    return p
+
+
 FAMILIES = [('zero_trip_for', zero_trip, 30), ('closure', closure, 60), ('lambda_later', lambda_later, 6),
             ('closure_binds_local', closure_binds, 12), ('misc', misc, 18),
             ('def_time_reads', def_time, 27), ('closure_in_branch', closure_in_branch, 72),
-            ('prefix_names', prefix_names, 80)]
+            ('prefix_names', prefix_names, 80), ('starred_target', starred_targets, 72), ('try_else_finally', try_else_finally, 48)]
 
 
 def scenario_programs(rng, scale=1):
